@@ -130,6 +130,9 @@ fn txn_alphabet() -> Vec<&'static str> {
         "2024/01/15 h\n  A  1 X = 100 X\n  A  1 Y\n  A  1 Z\n  B\n\n",
         // failing: three-commodity residual
         "2024/01/16 i\n  A  1 X\n  B  2 Y\n  C  3 Z\n\n",
+        // failing: three-commodity residual of mixed signs (whether two of them look like an implied exchange must not
+        // depend on which two are looked at first)
+        "2024/01/16 m\n  A  10 X\n  B  -5 Y\n  C  3 Z\n\n",
         // cost with a multi-commodity expression (must be rejected the same way every time)
         "2024/01/17 j\n  A  5 W @ (1 X + 2 Y)\n  B\n\n",
         // three holdings whose values in Z have 29 significant digits: decimal addition rounds when the running sum
@@ -413,6 +416,33 @@ fn run(ctx: &mut Ctx) {
                 || {
                     std::fs::write(&fr_path, &text).expect("write scratch ledger");
                     free_running(&commands(&fr_path.to_string_lossy())[ci], runs, &tick)
+                },
+            );
+        }
+    }
+    // import with a label-based field map whose labels are missing from the CSV header (2, 3 and 4 missing labels): the
+    // diagnostic lists them - in the same order every time
+    {
+        let ldir = dir.join(format!("labels-{}", ctx.shard));
+        for missing in 2..=4usize {
+            let names = ["Balance", "Memo", "Category", "Currency"];
+            let mut fields = String::from("    date: Date\n    payee: Payee\n    amount: Amount\n");
+            for (k, n) in [("balance", names[0]), ("note", names[1]), ("category", names[2]), ("commodity", names[3])].iter().take(missing) {
+                fields.push_str(&format!("    {}: {}\n", k, n));
+            }
+            let cfg = format!("path: \"stmt\"\nencoding: UTF-8\naccount: \"Assets:Bank\"\naccount_type: asset\ncommodity: CHF\nformat:\n  date: \"%Y-%m-%d\"\n  fields:\n{}rewrite: []\n", fields);
+            let tick_ctx: *const Ctx = ctx;
+            let tick = move || unsafe { (*tick_ctx).tick() };
+            ctx.case(
+                || format!("[free-running sample, {} fresh processes] $ okane import --config c.yml stmt.csv (header lacks {} configured labels)\n{}", runs * 2, missing, cfg),
+                || {
+                    std::fs::create_dir_all(&ldir).expect("mkdir");
+                    let cp = ldir.join("c.yml");
+                    let sp = ldir.join("stmt.csv");
+                    std::fs::write(&cp, &cfg).expect("write config");
+                    std::fs::write(&sp, "Date,Payee,Amount\n2024-01-05,Shop,-20.50\n").expect("write statement");
+                    let args: Vec<String> = ["okane", "import", "--config", &cp.to_string_lossy(), &sp.to_string_lossy()].iter().map(|x| x.to_string()).collect();
+                    free_running(&args, runs * 2, &tick)
                 },
             );
         }
